@@ -677,7 +677,9 @@ def run(ctx):
                 t, rec, refs = model_cases[k]
                 cs.append(coq_case(Case(D, refs, R), t, k[1], k[2]))
             terms.append(("c%d" % i, "[%s]" % ";\n ".join(cs)))
-        res = coq_eval(ctx, "From TV Require Import Fields.Encode.\nLocal Open Scope N_scope.\nLocal Open Scope string_scope.", terms, timeout=1500)
+        # one coqc process per core: coq_eval's default (len(terms) // 40) would put all ~45 large terms in a single process
+        res = coq_eval(ctx, "From TV Require Import Fields.Encode.\nLocal Open Scope N_scope.\nLocal Open Scope string_scope.", terms,
+                       shards=max(1, min(vlib.NCPU, len(terms))), timeout=1500)
         disagree = []
         for i in range(0, len(keys), chunk):
             for k, mv in zip(keys[i:i + chunk], res["c%d" % i]):
